@@ -32,9 +32,33 @@ pub enum ClockCase {
     /// `movetime` is kept at or below the mover's clock so that both readings of the statement agree;
     /// `place` = position of the movetime field among the others, `extra` adds `movestogo` / `depth` fields
     Both { wtime: u64, btime: u64, winc: u64, binc: u64, movetime: u64, black: bool, place: u8, extra: u8 },
+    /// any of the above with one unimplemented standard field (`ponder`, `searchmoves …`, `nodes`, `mate`) put in
+    /// front of or behind the rest
+    With { inner: Box<ClockCase>, extra: u8 },
 }
 
 pub struct C13;
+
+/// Standard `go` fields this engine does not implement; a GUI may still send them (analysis with `searchmoves`,
+/// `nodes` / `mate` limits, `ponder`), before or after the time fields. They must not disturb the time fields.
+fn decorate(cmd: &str, extra: u8) -> String {
+    let rest = cmd.strip_prefix("go ").unwrap_or(cmd);
+    let unit = match extra % 8 {
+        1 => "ponder".to_string(),
+        2 => "searchmoves e2e4".to_string(),
+        3 => "searchmoves e2e4 d2d4".to_string(),
+        4 => "searchmoves g1f3 c2c4 e2e4".to_string(),
+        5 => "searchmoves e7e5 c7c5 g8f6 e7e6".to_string(),
+        6 => "nodes 100000000".to_string(),
+        7 => "mate 12".to_string(),
+        _ => return cmd.to_string(),
+    };
+    if (extra / 8) % 2 == 0 {
+        format!("go {} {}", unit, rest)
+    } else {
+        format!("go {} {}", rest, unit)
+    }
+}
 
 fn clock_value() -> impl Strategy<Value = u64> {
     prop_oneof![
@@ -53,7 +77,12 @@ fn inc_value() -> impl Strategy<Value = u64> {
 /// (resp. the fixed move time).
 impl C13 {
     fn run(&self, case: &ClockCase, ev: &mut Ev) -> Result<(), Fail> {
+        let (case, decoration) = match case {
+            ClockCase::With { inner, extra } => (&**inner, *extra),
+            other => (other, 0),
+        };
         let (cmd, limit, black, nontrivial) = match case {
+            ClockCase::With { .. } => return Err(Fail::new("harness", "nested decoration".into())),
             ClockCase::Clock { wtime, btime, winc, binc, black, order, omit, movestogo } => {
                 let parts = [format!("wtime {}", wtime), format!("btime {}", btime), format!("winc {}", winc), format!("binc {}", binc)];
                 // the four fields in one of a few orders GUIs use
@@ -101,6 +130,12 @@ impl C13 {
                 ev.class("movetime_together_with_clock_fields");
                 (format!("go {}", parts.join(" ")), mt, *black, true)
             }
+        };
+        let cmd = if decoration % 8 != 0 {
+            ev.class("with_an_unimplemented_standard_field");
+            decorate(&cmd, decoration)
+        } else {
+            cmd
         };
         let mut s = Session::start(&[]).map_err(|e| Fail::new("harness", e))?;
         s.send(if black { "position startpos moves e2e4" } else { "position startpos" });
@@ -182,7 +217,7 @@ impl Prop for C13 {
     }
 
     fn rule(&self) -> String {
-        "Cases: `go wtime W btime B winc X binc Y` (four field orders; one time in three an increment field whose value is 0 is left out, as GUIs that send increments only when there are any do; one time in three with a `movestogo N` field, N from 1 to 80, at the end, the front or after the first field) with W, B log-uniform over 0..10^7 plus boundary values around 150/155 ms and the 7.5 s clock, increments 0 / small / clock-like / up to 10^5, either side to move; `go movetime T`, T in 0..2000 with boundary values; and (one case in five) a fixed move time together with the four clock fields, in any of five places among them and optionally with `movestogo` / `depth` fields, T kept at or below the mover's clock so that the limit is T under either reading of the statement. Through the real binary: the `info time N` line must exist and N must not exceed the mover's remaining time (resp. T), hence be finite and non-negative; allotments up to 400 ms are run to completion and `bestmove` must arrive (later than N + 5 s = violation, between 2 and 5 s = inconclusive); for longer ones only the allotted figure is judged (isready / stop / quit behaviour belongs to C14). evaluations = go commands judged. Non-trivial: 2 % of the clock plus increment below 155 ms, or increment above the clock, or movetime below 5; distinct by command and side.".into()
+        "Cases: `go wtime W btime B winc X binc Y` (four field orders; one time in three an increment field whose value is 0 is left out, as GUIs that send increments only when there are any do; one time in three with a `movestogo N` field, N from 1 to 80, at the end, the front or after the first field) with W, B log-uniform over 0..10^7 plus boundary values around 150/155 ms and the 7.5 s clock, increments 0 / small / clock-like / up to 10^5, either side to move; `go movetime T`, T in 0..2000 with boundary values; and (one case in five) a fixed move time together with the four clock fields, in any of five places among them and optionally with `movestogo` / `depth` fields, T kept at or below the mover's clock so that the limit is T under either reading of the statement. One command in four additionally carries a standard field this engine does not implement (`ponder`, `searchmoves` with 1-4 moves, `nodes N`, `mate N`) in front of or behind the rest. Through the real binary: the `info time N` line must exist and N must not exceed the mover's remaining time (resp. T), hence be finite and non-negative; allotments up to 400 ms are run to completion and `bestmove` must arrive (later than N + 5 s = violation, between 2 and 5 s = inconclusive); for longer ones only the allotted figure is judged (isready / stop / quit behaviour belongs to C14). evaluations = go commands judged. Non-trivial: 2 % of the clock plus increment below 155 ms, or increment above the clock, or movetime below 5; distinct by command and side.".into()
     }
 
     fn assumptions(&self) -> Vec<String> {
@@ -209,13 +244,13 @@ impl Prop for C13 {
     }
 
     fn strategy(&self, _ctx: &Ctx) -> BoxedStrategy<ClockCase> {
-        prop_oneof![
+        let plain = prop_oneof![
             3 => (clock_value(), clock_value(), inc_value(), inc_value(), any::<bool>(), 0u8..4, prop_oneof![2 => Just(0u8), 1 => 1u8..4], prop_oneof![2 => Just(0u8), 1 => 1u8..28]).prop_map(|(wtime, btime, winc, binc, black, order, omit, movestogo)| ClockCase::Clock { wtime, btime, winc, binc, black, order, omit, movestogo }),
             1 => (prop_oneof![2 => prop::sample::select(vec![0u64, 1, 4, 5, 6, 10, 50, 200]), 1 => 0u64..2000], any::<bool>()).prop_map(|(movetime, black)| ClockCase::MoveTime { movetime, black }),
             1 => (clock_value(), clock_value(), inc_value(), inc_value(), prop_oneof![1 => prop::sample::select(vec![0u64, 1, 5, 6, 50, 200]), 1 => 0u64..3000], any::<bool>(), 0u8..5, 0u8..4)
                 .prop_map(|(wtime, btime, winc, binc, movetime, black, place, extra)| ClockCase::Both { wtime, btime, winc, binc, movetime, black, place, extra }),
-        ]
-        .boxed()
+        ];
+        (plain, prop_oneof![3 => Just(0u8), 1 => 1u8..16]).prop_map(|(inner, extra)| if extra % 8 == 0 { inner } else { ClockCase::With { inner: Box::new(inner), extra } }).boxed()
     }
 
     fn check(&self, _ctx: &Ctx, case: &ClockCase, ev: &mut Ev) -> Result<(), Fail> {
